@@ -14,6 +14,7 @@ CONSTANTS
   MaxDeliver = 2
   FailPoints = {0, 3}
   AllowEarly = TRUE
+  AllowPkUpd = FALSE
 VIEW View
 INVARIANTS TypeOK Exact Honest
 PROPERTIES Idempotent
